@@ -67,7 +67,160 @@ def prog(rng, kind):
     return Prog(Fn("flag", [("b", "i32")], "bool", Ret(Bin("eq", "i32", V("b"), I("i32", 1)))), Fn("ix", [("k", "i32")], "i32", Ret(V("k"))), Main(*body))
 
 
-KINDS = ["literal", "const", "let", "arith", "oob-literal", "oob-const", "reassigned", "branch", "loop", "arith-reassigned", "incdec", "opaque", "struct-field-array"]
+def randprog(rng):
+    """index-dataflow program.  `s*` variables are never changed (reads through them, through lets derived from them and through
+    in-range literals are compile-time constant and must be accepted and hit the right element); `k*` variables are changed by
+    =, +=, -=, ++, -- inside branches and loops and index WRITES (run-time checked: a value outside [-N,N) must panic).  At most one
+    `risky` read goes through a changing variable or a let derived from one: the compiler may reject it, but if it accepts, the value
+    at that moment counts.  The array sits between two guard arrays printed at the end (a stray write shows as a changed neighbour)."""
+    n = 2 + rng.below(4)
+    t = rng.choice(["i32", "i32", "i64", "u8", "i16"])
+    vals = [10 * (k + 1) + rng.below(9) for k in range(n)]
+    body = [Let("lo", TA(2, "i32"), ALit(I("i32", 1), I("i32", 2))), Let("a", TA(n, t), ALit(*[I(t, v) for v in vals])), Let("hi", TA(2, "i32"), ALit(I("i32", 3), I("i32", 4)))]
+    stable, moving = {}, []
+    for j in range(1 + rng.below(2)):
+        v = rng.below(2 * n) - n
+        stable["s%d" % j] = v
+        body.append(Const("s%d" % j, "i32", I("i32", v)) if rng.below(3) == 0 else Let("s%d" % j, "i32", I("i32", v)))
+    for j in range(1 + rng.below(2)):
+        body.append(Let("k%d" % j, "i32", I("i32", rng.below(2 * n) - n))); moving.append("k%d" % j)
+    cnt = [0]
+    risky = [rng.below(100) < 45]
+    mderived = []            # lets derived from moving variables that are in scope
+
+    def inrange(v): return -n <= v < n
+
+    def safe_idx():
+        r = rng.below(5)
+        if r == 0: return I("i32", rng.below(2 * n) - n)
+        name = rng.choice(sorted(stable))
+        v = stable[name]
+        if r == 1 and inrange(v + 1): return Bin("add", "i32", V(name), I("i32", 1))
+        if r == 2 and inrange(v - 1): return Bin("sub", "i32", V(name), I("i32", 1))
+        return V(name)
+
+    def moving_idx():
+        r = rng.below(16)
+        v = V(rng.choice(moving + mderived))
+        if r < 9: return v
+        if r < 12: return Bin("add", "i32", v, I("i32", 1))
+        if r < 15: return Bin("sub", "i32", v, I("i32", 1))
+        return Call("ix", v)          # opaque: the compiler refuses it for fixed arrays
+
+    def mutate():
+        # `k = k +- c` and `k = literal` keep the variable a walk-time constant (writes through it stay accepted and are checked at
+        # run time); compound assignments and ++/-- make it non-constant for the analysis
+        name = rng.choice(moving)
+        k = V(name)
+        r = rng.below(14)
+        if r < 2: return Set(k, I("i32", rng.below(2 * n + 3) - n - 1))
+        if r < 6: return Set(k, Bin("add", "i32", k, I("i32", 1 + rng.below(2))))
+        if r < 10: return Set(k, Bin("sub", "i32", k, I("i32", 1 + rng.below(3))))
+        if r == 10: return OpSet("add", "i32", k, I("i32", 1 + rng.below(2)))
+        if r == 11: return OpSet("sub", "i32", k, I("i32", 1 + rng.below(2)))
+        if r == 12: return Inc("i32", k)
+        return Dec("i32", k)
+
+    def derive(src_pool, table=None):
+        cnt[0] += 1
+        name = "m%d" % cnt[0]
+        sname = rng.choice(src_pool)
+        src = V(sname)
+        d = rng.choice([0, 1, -1])
+        if table is not None and not inrange(table[sname] + d): d = 0
+        e = src if d == 0 else Bin("add" if d > 0 else "sub", "i32", src, I("i32", 1))
+        if table is not None: table[name] = table[sname] + d
+        return name, (Let(name, "i32", e) if rng.below(2) else LetInfer(name, e))
+
+    def write():
+        ix = moving_idx() if rng.below(3) else safe_idx()
+        if rng.below(3): return Set(Idx(V("a"), ix), I(t, 50 + rng.below(40)))
+        return OpSet("add", t, Idx(V("a"), ix), I(t, 1 + rng.below(5)))
+
+    def stmts(depth, k, in_loop=False):
+        out, local_s, local_m = [], [], []
+        for _ in range(k):
+            r = rng.below(12)
+            if r < 2: out.append(Print(Idx(V("a"), safe_idx())))
+            elif r < 4: out.append(write())
+            elif r < 6: out.append(mutate())
+            elif r < 7:
+                name, st = derive(sorted(stable), stable); out.append(st); local_s.append(name)
+                out.append(Print(Idx(V("a"), V(name))))
+            elif r < 8:
+                name, st = derive(moving); out.append(st); mderived.append(name); local_m.append(name)
+                out.append(write())
+            elif r < 9 and risky[0]:
+                risky[0] = False
+                out.append(Print(Idx(V("a"), moving_idx())))
+            elif r < 10 and depth < 2:
+                out.append(If(Call("flag", I("i32", rng.below(2))), stmts(depth + 1, 1 + rng.below(3), in_loop), stmts(depth + 1, rng.below(2), in_loop)))
+            elif depth < 2:
+                cnt[0] += 1
+                w = "w%d" % cnt[0]
+                inner = []
+                if risky[0] and rng.below(2):
+                    # the loop shape that exposes stale constants: derive from a changing variable, read through it, then change it
+                    risky[0] = False
+                    name, st = derive(moving)
+                    inner += [st, Print(Idx(V("a"), V(name)))]
+                inner += stmts(depth + 1, 1 + rng.below(3), True) + [mutate()]
+                out += [Let(w, "i32", I("i32", 0)), While(Bin("lt", "i32", V(w), I("i32", 1 + rng.below(5))), *(inner + [Inc("i32", V(w))]))]
+            else:
+                out.append(write())
+        for nm in local_s: stable.pop(nm, None)
+        for nm in local_m:
+            if nm in mderived: mderived.remove(nm)
+        return out
+
+    body += stmts(0, 3 + rng.below(5))
+    body += [Print(Idx(V("lo"), I("i32", 0))), Print(Idx(V("lo"), I("i32", 1)))] + [Print(Idx(V("a"), I("i32", k))) for k in range(n)] + \
+            [Print(Idx(V("hi"), I("i32", 0))), Print(Idx(V("hi"), I("i32", 1)))] + [Print(V(v)) for v in moving]
+    return Prog(Fn("flag", [("b", "i32")], "bool", Ret(Bin("eq", "i32", V("b"), I("i32", 1)))), Fn("ix", [("k", "i32")], "i32", Ret(V("k"))), Main(*body))
+
+
+def walkprog(rng):
+    """an index that WALKS: start x step x iterations x how the variable is changed (k = k +- d, k += d, k -= d, k++, k--) x where
+    (before / after the access) x access through k itself or through a let derived from k inside the loop x read / write / compound
+    write.  The trajectory crosses the upper bound, the lower bound (-N) or stays inside; guard arrays around `a` expose stray stores."""
+    n = 2 + rng.below(4)
+    t = rng.choice(["i32", "i32", "i64", "u8"])
+    vals = [10 * (k + 1) + rng.below(9) for k in range(n)]
+    start = rng.below(2 * n) - n
+    d = 1 + rng.below(3)
+    up = rng.below(2) == 0
+    iters = 1 + rng.below(2 * n + 2)
+    form = rng.below(4) if d > 1 else rng.below(5)
+    k = V("k")
+    if form == 0: mut = Set(k, Bin("add" if up else "sub", "i32", k, I("i32", d)))
+    elif form == 1: mut = OpSet("add" if up else "sub", "i32", k, I("i32", d))
+    elif form == 2: mut = Set(k, Bin("add", "i32", k, I("i32", d if up else -d)))
+    elif form == 3: mut = OpSet("add", "i32", k, I("i32", d if up else -d))
+    else: mut = Inc("i32", k) if up else Dec("i32", k)
+    via = rng.below(3)          # 0: a[k]; 1: let m := k + c; a[m]; 2: a[k + c]
+    c = rng.below(3) - 1
+    if via == 0: pre, ix = [], k
+    elif via == 1:
+        e = k if c == 0 else Bin("add" if c > 0 else "sub", "i32", k, I("i32", 1))
+        pre, ix = [Let("m", "i32", e) if rng.below(2) else LetInfer("m", e)], V("m")
+    else: pre, ix = [], (k if c == 0 else Bin("add" if c > 0 else "sub", "i32", k, I("i32", 1)))
+    acc = rng.below(4)
+    if acc == 0: access = [Print(Idx(V("a"), ix))]
+    elif acc == 1: access = [Set(Idx(V("a"), ix), I(t, 90 + rng.below(9)))]
+    elif acc == 2: access = [OpSet("add", t, Idx(V("a"), ix), I(t, 1 + rng.below(4)))]
+    else: access = [Let("v", t, Idx(V("a"), ix)), Print(V("v"))]
+    inner = pre + ([mut] + access if rng.below(4) == 0 else access + [mut])
+    if rng.below(4) == 0:
+        inner = [If(Call("flag", I("i32", 1)), inner)]
+    body = [Let("lo", TA(2, "i32"), ALit(I("i32", 1), I("i32", 2))), Let("a", TA(n, t), ALit(*[I(t, v) for v in vals])), Let("hi", TA(2, "i32"), ALit(I("i32", 3), I("i32", 4))),
+            Let("k", "i32", I("i32", start)), Let("w", "i32", I("i32", 0)),
+            While(Bin("lt", "i32", V("w"), I("i32", iters)), *([Print(V("k"))] + inner + [Set(V("w"), Bin("add", "i32", V("w"), I("i32", 1)))])),
+            Print(Idx(V("lo"), I("i32", 0))), Print(Idx(V("lo"), I("i32", 1)))] + [Print(Idx(V("a"), I("i32", j))) for j in range(n)] + \
+           [Print(Idx(V("hi"), I("i32", 0))), Print(Idx(V("hi"), I("i32", 1)))]
+    return Prog(Fn("flag", [("b", "i32")], "bool", Ret(Bin("eq", "i32", V("b"), I("i32", 1)))), Main(*body))
+
+
+KINDS = ["literal", "const", "let", "arith", "oob-literal", "oob-const", "reassigned", "branch", "loop", "arith-reassigned", "incdec", "opaque", "struct-field-array", "random", "walk"]
 # regression witnesses of F2 (fixed in /repo 7f48bdd): flow-insensitive constant propagation of `let` indices
 KNOWN = {
     "branch-dependent-index": Prog(Fn("flag", [], "bool", Ret(B(True))), Main(Let("a", TA(3, "i32"), ALit(I("i32", 10), I("i32", 20), I("i32", 30))), Let("i", "i32", I("i32", 0)),
@@ -91,8 +244,8 @@ def main():
     n = 10 if tier == "quick" else 120
     progs, meta = [], []
     for kind in KINDS:
-        for _ in range(n):
-            progs.append(prog(rng, kind)); meta.append(kind)
+        for _ in range(n * 20 if kind in ("random", "walk") else n):
+            progs.append(randprog(rng) if kind == "random" else walkprog(rng) if kind == "walk" else prog(rng, kind)); meta.append(kind)
     names = list(KNOWN)
     progs += [KNOWN[k] for k in names]; meta += ["known:" + k for k in names]
     ms = model_run(progs)
